@@ -30,12 +30,19 @@ RULE = ("case = a multiset of 1-7 distinct atoms (elements, isotopes, D/T, ions,
         "running sum is taken and checked against its own model as soon as it exists and again after it was used "
         "as an operand; plus operation histories of pbt/fops_c02.py (constructors, copy, +, n*, +=, again) with "
         "the Hill form of the result and of the operands checked after every step (flag) and of all variables "
-        "at the end. Oracle per formula: hill.atoms == the multiset exactly (and == f.atoms); "
+        "at the end; plus long histories: 1-5 ionic formulas (either table) are built and their Hill forms taken, "
+        "every element ion of the table (499) and drawn isotope ions are then looked up or parsed in a drawn order, "
+        "and afterwards the held formulas, new spellings of the same atoms (reversed dict, reversed string, "
+        "regrouped string) and held+new / new+held sums must pass the same oracle, with Hill forms equal to those "
+        "taken before the scan. A third of the multiset cases use the atoms of a private PeriodicTable (a few masses changed): "
+        "strings parsed with table=T, dicts/sequences of T's atoms, or built on the public table and moved with "
+        "change_table(T); every atom of f.hill must then be T's object and hill.mass == f.mass. Oracle per formula: hill.atoms == the multiset exactly (and == f.atoms); "
         "hill.structure is flat, one entry per atom, with key (symbol not in {C,H}, symbol, mass number or 0) "
         "non-decreasing; hill.hill == hill with equal str; .hill taken twice is the same; it equals the Hill form of a "
         "fresh formula({atom: n}) with the same counts in another key order; across variants all Hill forms are == with identical "
         "str; the string written in that order (charge-state ties in the order the library's Hill form uses), "
-        "parsed, equals its own Hill form and the variants' Hill form. non-trivial = the multiset has two charge "
+        "parsed (bare, with @d / @di / @dn tags, with density= / natural_density= / name= keywords, with table=T on "
+        "the private table), equals its own Hill form in both directions and the variants' Hill form. non-trivial = the multiset has two charge "
         "states of one element, or two isotopes of one element, or D/T together with H; distinct by the case.")
 ASSUMPTIONS = [
     "in operation histories the counts are arbitrary doubles: the Hill form's atoms are compared with the Fraction "
@@ -53,7 +60,19 @@ NEAR_CH = ["C", "H", "Ca", "Cd", "Ce", "Cl", "Co", "Cu", "B", "Be", "Br", "He", 
 
 
 def env():
+    """The shared environment of pbt/fops_c02.py: public table and a private table (own atoms, a few masses
+    changed so that a mix-up of tables also shows in .mass)."""
     return ops.env()
+
+
+def on_table(E, which):
+    """A view of the environment whose 'table' is the chosen table."""
+    if which == "public":
+        return E
+    V = dict(E)
+    V["table"] = E["tables"][which]
+    V["which"] = which
+    return V
 
 
 # ----------------------------------------------------------------------
@@ -197,7 +216,12 @@ def cases(pool):
         ks = [draw(count8()) for _ in specs]
         nvar = draw(st.integers(2, 4))
         variants = [_variant(draw, specs, ks) for _ in range(nvar)]
-        return {"kind": "multiset", "atoms": [[s, k] for s, k in zip(specs, ks)], "variants": variants}
+        # table: the formulas of the case are built from the atoms of the public or of a private table;
+        # moved[i]: on the private table, variant i is built on the public table and then moved with change_table
+        which = draw(st.sampled_from(["public", "public", "private"]))
+        moved = [draw(st.booleans()) for _ in variants] if which == "private" else []
+        return {"kind": "multiset", "atoms": [[s, k] for s, k in zip(specs, ks)], "variants": variants,
+                "table": which, "moved": moved}
     return gen()
 
 
@@ -243,12 +267,12 @@ def variant_build(E, atoms, v, hook=None):
             d[resolve(table, spec)] = jnum(Fraction(k, 8))
         return formula(d), "dict"
     if v[0] == "tree":
-        return formula(fa.render(v[1])), "string"
+        return formula(fa.render(v[1]), table=table), "string"
     early = len(v) > 2 and v[2] and hook is not None
     f, fmodel = None, {}
     for n, (m, part, inplace) in enumerate(v[1]):
         if part[0] == "tree":
-            p = formula(fa.render(part[1]))
+            p = formula(fa.render(part[1]), table=table)
         else:
             p = formula([(c, resolve(table, spec)) for c, spec in part[1]])
         pm = part_model(pool, part)
@@ -282,6 +306,15 @@ def describe(v):
 
 def hill_key(atom):
     return (0 if atom.symbol in CH else 1, atom.symbol, getattr(atom, "isotope", 0))
+
+
+def all_atoms(structure):
+    for _, frag in structure:
+        if isinstance(frag, (list, tuple)):
+            for a in all_atoms(frag):
+                yield a
+        else:
+            yield frag
 
 
 def deep_tuple(s):
@@ -328,7 +361,17 @@ def check_hill(E, f, model, where, case, exact=True):
         raise Violation("c19:atoms", "%s: Hill form %s has atoms %r, expected %r"
                         % (where, h, got, dict((k, float(c)) for k, c in model.items())), case)
     if ha != fa_:
-        raise Violation("c19:atoms", "%s: f.hill.atoms %r != f.atoms %r" % (where, ha, fa_), case)
+        b = "c19:atoms"
+        if sorted((atom_key(a), n) for a, n in ha.items()) == sorted((atom_key(a), n) for a, n in fa_.items()):
+            b = "c19:atoms:identity"        # same counts, other atom objects
+        raise Violation(b, "%s: f.hill.atoms %r != f.atoms %r" % (where, ha, fa_), case)
+    for a in all_atoms(h.structure):
+        if a is not key_to_atom(table, atom_key(a)):
+            raise Violation("c19:atoms:identity", "%s: atom %r of the Hill structure is not an atom of the %s table"
+                            % (where, a, E.get("which", "public")), case)
+    fm, hm = f.mass, h.mass
+    if not (fm == hm or abs(fm - hm) <= 1e-12 * max(abs(fm), abs(hm))):
+        raise Violation("c19:mass", "%s: mass of the Hill form %r, of the formula %r" % (where, hm, fm), case)
     # flat, complete, ordered
     seq = []
     for entry in h.structure:
@@ -370,7 +413,10 @@ def check_hill(E, f, model, where, case, exact=True):
 
 
 def check_case(ctx, case):
-    E = env()
+    which = case.get("table", "public")
+    moved = case.get("moved") or []
+    E0 = env()
+    E = on_table(E0, which)
     pool, table, formula = E["pool"], E["table"], E["formula"]
     atoms = case["atoms"]
     multiset = dict((spec_key(pool, s), Fraction(k, 8)) for s, k in atoms)
@@ -385,6 +431,9 @@ def check_case(ctx, case):
         cls.append("has-C")
     if any(v[0] == "arith" and len(v) > 2 and v[2] for v in case["variants"]):
         cls.append("variant:arith-early-hill")
+    cls.append("table:" + which)
+    if any(moved):
+        cls.append("table:private-via-change_table")
     ctx.case(json.dumps(case, sort_keys=True), nontrivial=(two_charges or two_isotopes or dt_h),
              sample={"atoms": atoms, "variants": [describe(v)[:100] for v in case["variants"]]}, cls=cls)
 
@@ -397,7 +446,15 @@ def check_case(ctx, case):
 
         def hook(g, gmodel, what):
             check_hill(E, g, gmodel, "%s, %s" % (label, what), case)
-        f, how = variant_build(E, atoms, v, hook)
+        if vi < len(moved) and moved[vi]:
+            # built from public atoms, then moved to the private table
+            f, how = variant_build(E0, atoms, v, None)
+            f.change_table(table)
+            how += ", change_table"
+        else:
+            f, how = variant_build(E, atoms, v, hook)
+        if which != "public":
+            how += ", private table"
         where = "variant %d (%s: %s)" % (vi, how, describe(v)[:120])
         h, seq = check_hill(E, f, multiset, where, case)
         hills.append((h, where, seq))
@@ -413,19 +470,30 @@ def check_case(ctx, case):
     tree = {"g": [["i", None, [["a", list(_spec_of(a)), False, cstr(multiset[atom_key(a)])] for a in seq0]]],
             "s": [], "d": None}
     s = fa.render(tree)
-    p = formula(s)
-    ph = p.hill
-    if not (p == ph):
-        if deep_tuple(p.structure) == deep_tuple(ph.structure):
-            b = "c19:parsed-vs-own-hill:container-type"
-            msg = "structures differ only in list vs tuple"
-        else:
-            b = "c19:parsed-vs-own-hill:order"
-            msg = "order differs"
-        raise Violation(b, "formula(%r) != formula(%r).hill: %r vs %r (%s)" % (s, s, p.structure, ph.structure, msg), case)
-    if not (ph == h0) or str(ph) != str(h0):
-        raise Violation("c19:canonical:parsed", "formula(%r).hill = %s differs from the variants' Hill form %s"
-                        % (s, ph, h0), case)
+    kw = {} if which == "public" else {"table": table}
+    # every documented spelling of that string: bare, with a density tag, with the density/name keywords
+    spellings = [(s, {}), (s + "@2.5", {}), (s + "@2.5i", {}), (s + "@0.75n", {}), (s, {"density": 2.5}),
+                 (s, {"natural_density": 0.75}), (s, {"name": "in Hill order"}), (s + "@1.5n", {"name": "x"})]
+    for text, extra in spellings:
+        args = dict(kw)
+        args.update(extra)
+        shown = "formula(%r%s)" % (text, "".join(", %s=%r" % kv for kv in sorted(extra.items())) + (", table=T" if kw else ""))
+        p = formula(text, **args)
+        ph = p.hill
+        if not (p == ph) or not (ph == p):
+            if deep_tuple(p.structure) == deep_tuple(ph.structure):
+                b = "c19:parsed-vs-own-hill:container-type"
+                msg = "structures differ only in list vs tuple"
+            else:
+                b = "c19:parsed-vs-own-hill:order"
+                msg = "order differs"
+            raise Violation(b, "%s != its own .hill: %r vs %r (%s)" % (shown, p.structure, ph.structure, msg), case)
+        if not (ph == h0) or not (h0 == ph) or str(ph) != str(h0):
+            raise Violation("c19:canonical:parsed", "%s.hill = %s differs from the variants' Hill form %s"
+                            % (shown, ph, h0), case)
+        for a in all_atoms(ph.structure):
+            if a is not key_to_atom(table, atom_key(a)):
+                raise Violation("c19:atoms:identity", "%s.hill holds %r, not an atom of the %s table" % (shown, a, which), case)
 
 
 # ----------------------------------------------------------------------
@@ -441,7 +509,7 @@ def check_history(ctx, value):
         if not v.comp or any(c <= 0 for c in v.comp.values()):
             return
         seen.update(v.comp)
-        check_hill(E, v.f, v.comp, where, case, exact=False)
+        check_hill(on_table(E, v.table), v.f, v.comp, where + " (%s table)" % v.table, case, exact=False)
 
     def observer(step, vars_):
         # the Hill form of the new/changed variable and, again, of its operands, right after the step
@@ -475,6 +543,111 @@ def _spec_of(atom):
 
 
 # ----------------------------------------------------------------------
+# long histories: ionic formulas are built and their Hill forms taken, then several hundred other ions are
+# used, then the same species are obtained again (other spellings, arithmetic with the formulas held from before)
+def long_cases(pool):
+    ionic = st.one_of(pool.ion(), pool.ion(), pool.isotope_ion(), pool.dt_ion(), pool.element())
+    specs = st.one_of(st.lists(ionic, min_size=1, max_size=4), atom_lists(pool).map(lambda l: l[:4]))
+    item = st.tuples(specs.flatmap(lambda l: st.tuples(*[st.tuples(st.just(sp), count8()).map(list) for sp in l]).map(list)),
+                     st.sampled_from(["public", "public", "private"]),
+                     st.sampled_from(["dict", "string", "string-grouped"])
+                     ).map(lambda t: {"atoms": t[0], "table": t[1], "how": t[2]})
+    scan = st.fixed_dictionaries({
+        "offset": st.integers(0, 2000), "reverse": st.booleans(),
+        "iso": st.lists(st.integers(0, 10 ** 6), min_size=0, max_size=150),
+        "table": st.sampled_from(["public", "public", "private"]),
+        "mode": st.sampled_from(["lookup", "lookup", "parse"]),
+        # a short scan is there for the shrinker: a failure that does not need the long scan shrinks to it
+        "limit": st.sampled_from([30, 5000, 5000, 5000, 5000])})
+    return st.tuples(st.lists(item, min_size=1, max_size=5), scan).map(
+        lambda t: {"kind": "long", "first": t[0], "scan": t[1]})
+
+
+def _flat_tree(specs_counts, grouped=False):
+    atoms = [["a", list(sp), False, cstr(c)] for sp, c in specs_counts]
+    if grouped and len(atoms) > 1:
+        # the first atom in a group of its own with multiplier 2 and half the count
+        sp, c = specs_counts[0]
+        first = ["e", [["i", None, [["a", list(sp), False, cstr(c / 2)]]]], [], "2", ["", "", "", ""]]
+        return {"g": [first, ["i", None, atoms[1:]]], "s": [""], "d": None}
+    return {"g": [["i", None, atoms]], "s": [], "d": None}
+
+
+def check_long(ctx, case):
+    from .c13 import scan_specs          # the exhaustive element-ion scan (plus drawn isotope ions) of C13
+    E0 = env()
+    pool = E0["pool"]
+    held = []
+    nt = False
+    for n, item in enumerate(case["first"]):
+        E = on_table(E0, item["table"])
+        table, formula = E["table"], E["formula"]
+        kw = {} if item["table"] == "public" else {"table": table}
+        pairs, seen = [], set()
+        for spec, k in item["atoms"]:
+            key = spec_key(pool, spec)
+            if key not in seen:
+                seen.add(key)
+                pairs.append((spec, Fraction(k, 8)))
+        model = dict((spec_key(pool, sp), c) for sp, c in pairs)
+        if not any(k[2] for k in model):
+            continue                      # no ion in it
+        nt = nt or any(classify(set(model))[i] for i in (0, 2, 3))
+        if item["how"] == "dict":
+            f = formula(dict((resolve(table, sp), jnum(c)) for sp, c in pairs))
+        else:
+            f = formula(fa.render(_flat_tree(pairs, item["how"] == "string-grouped")), **kw)
+        where = "formula %d (%s, %s table) before the scan" % (n, str(f)[:60], item["table"])
+        h, _ = check_hill(E, f, model, where, case)
+        held.append((n, item, E, pairs, model, f, h))
+    # the scan
+    scan = case["scan"]
+    T = E0["tables"][scan["table"]]
+    specs = scan_specs(pool, dict(scan, count=None))
+    if scan["mode"] == "lookup":
+        for sp in specs:
+            resolve(T, sp)
+    else:
+        kw = {} if scan["table"] == "public" else {"table": T}
+        for i in range(0, len(specs), 4):
+            E0["formula"](fa.render(_flat_tree([(sp, Fraction(1)) for sp in specs[i:i + 4]])), **kw)
+    ctx.case(json.dumps(case, sort_keys=True), nontrivial=nt,
+             sample={"first": [str(x[5])[:40] for x in held], "scanned": len(specs), "mode": scan["mode"]},
+             cls=["source:long", "long:scan-" + scan["mode"], "long:scan>128" if len(specs) > 128 else "long:scan-short",
+                  "table:" + scan["table"]])
+    # the same species again
+    for n, item, E, pairs, model, f, h in held:
+        table, formula = E["table"], E["formula"]
+        kw = {} if item["table"] == "public" else {"table": table}
+        after = "after %d other ions" % len(specs)
+        # the formula held from before, and its Hill form taken again
+        h2, _ = check_hill(E, f, model, "formula %d (%s) held from before, %s" % (n, str(f)[:60], after), case)
+        if not (h2 == h) or not (h == h2) or str(h2) != str(h):
+            raise Violation("c19:canonical:before-after", "formula %d: Hill form %s (%r) before, %s (%r) %s"
+                            % (n, h, h.structure, h2, h2.structure, after), case)
+        # other spellings of the same atoms, made now
+        rev = list(reversed(pairs))
+        others = [("dict, reversed order", formula(dict((resolve(table, sp), jnum(c)) for sp, c in rev))),
+                  ("string, reversed order", formula(fa.render(_flat_tree(rev)), **kw)),
+                  ("string, regrouped", formula(fa.render(_flat_tree(rev, True)), **kw))]
+        for what, g in others:
+            where = "formula %d spelled again (%s: %s) %s" % (n, what, str(g)[:60], after)
+            gh, _ = check_hill(E, g, model, where, case)
+            if not (gh == h) or not (h == gh) or str(gh) != str(h):
+                raise Violation("c19:canonical:before-after", "%s: Hill form %s, but %s for the formula built before"
+                                % (where, gh, h), case)
+            # arithmetic with the formula held from before: every species is listed once
+            for label, total in (("held + new", f + g), ("new + held", g + f)):
+                double = dict((k, 2 * c) for k, c in model.items())
+                check_hill(E, total, double, "formula %d, %s (%s) %s" % (n, label, str(total)[:60], after), case)
+
+
+# ----------------------------------------------------------------------
+def task_long(ctx, n):
+    E = env()
+    ctx.search("long", long_cases(E["pool"]), check_long, n)
+
+
 def task_multisets(ctx, n):
     E = env()
     ctx.search("multisets", cases(E["pool"]), check_case, n)
@@ -482,20 +655,24 @@ def task_multisets(ctx, n):
 
 def task_histories(ctx, n, steps=14):
     E = env()
-    strat = st.tuples(ops.history(E["pool"], max_steps=steps, mult=ops.number()), st.sampled_from([True, True, False]))
+    strat = st.tuples(ops.history(E["pool"], max_steps=steps, mult=ops.number(), tables=True), st.sampled_from([True, True, False]))
     ctx.search("histories", strat.map(list), check_history, n)
 
 
 def tasks(tier):
     if tier == "quick":
         return ([("multisets-%d" % k, task_multisets, dict(n=330)) for k in range(8)] +
-                [("histories-%d" % k, task_histories, dict(n=200)) for k in range(3)])
+                [("histories-%d" % k, task_histories, dict(n=200)) for k in range(3)] +
+                [("long-%d" % k, task_long, dict(n=60)) for k in range(2)])
     return ([("multisets-%d" % k, task_multisets, dict(n=10000)) for k in range(12)] +
-            [("histories-%d" % k, task_histories, dict(n=4000, steps=12 + 4 * k)) for k in range(4)])
+            [("histories-%d" % k, task_histories, dict(n=4000, steps=12 + 4 * k)) for k in range(4)] +
+            [("long-%d" % k, task_long, dict(n=1500)) for k in range(2)])
 
 
 def replay(ctx, case):
-    if case.get("kind") == "history":
+    if case.get("kind") == "long":
+        check_long(ctx, case)
+    elif case.get("kind") == "history":
         check_history(ctx, (case["ops"], case.get("early", False)))
     else:
         check_case(ctx, case)
